@@ -2,9 +2,10 @@
 # usage: scripts/check.sh <Cxx> <quick|thorough>
 # Rebuilds the checker against /repo's current working tree and runs one property check.
 # exit 0: property held on everything explored; exit 1: VIOLATION line(s) printed; exit 2: harness error.
-cd /verif || exit 2
+cd "$(dirname "$0")/.." || exit 2
+export VERIF_ROOT="$PWD"
 export GOFLAGS=-mod=mod GOPROXY=off GOSUMDB=off GOTOOLCHAIN=local
-export GOCACHE="${GOCACHE:-/verif/build/gocache}"
+export GOCACHE="${GOCACHE:-/verif/build/gocache}"  # shared build cache (content addressed, safe to share)
 mkdir -p build evidence replays
 PROP="$1"; TIER="${2:-${VERIF_TIER:-quick}}"
 if ! go build -o build/vcheck ./cmd/vcheck 2>build/build.err; then
